@@ -78,6 +78,10 @@ package standard
 //@   ensures result2 == nil ==> result0 != nil && result0.V1 != nil && result0.V1.Message != nil && result0.V1.Message.FeeRecipient == relayConfig.FeeRecipient && result0.V1.Message.GasLimit == relayConfig.GasLimit && result0.V1.Message.Pubkey == pubkey
 //@   // the beacon nodes are told the same
 //@   ensures result2 == nil ==> result1 != nil && result1.V1 != nil && result1.V1.Message != nil && result1.V1.Message.FeeRecipient == relayConfig.FeeRecipient && result1.V1.Message.GasLimit == relayConfig.GasLimit && result1.V1.Message.Pubkey == pubkey && result1.V1.Signature == result0.V1.Signature
+//@   // reuse only while the content is unchanged: nothing is signed only when the validator's latest registration
+//@   // already has exactly this content; afterwards this content is the validator's latest
+//@   ensures result2 == nil && calls(SignValidatorRegistration) == 0 ==> old(s.latestValidatorRegistrations[pubkey]) == regRoot(relayConfig.FeeRecipient, relayConfig.GasLimit, pubkey)
+//@   ensures result2 == nil ==> s.latestValidatorRegistrations[pubkey] == regRoot(relayConfig.FeeRecipient, relayConfig.GasLimit, pubkey)
 //@   ensures regCacheOK(s)
 //@   modifies contents(s.signedValidatorRegistrations), contents(s.latestValidatorRegistrations)
 //@
